@@ -1113,8 +1113,9 @@ SYS_DATA = {
 SYS_STYLES = ["sa_select", "sa_select_aliased", "sa_legacy", "sa_core", "dj_qs", "dj_manager",
               "dj_custom_manager", "dj_related_manager"]
 SYS_SHAPES = ["plain", "where", "order", "join_rel", "join_outer", "join_target_on",
-              "join_joinedload", "join_other", "annotated", "distinct", "chained"]
-SYS_FILTERS = ["scalar", "fn", "nav1", "nav2", "any", "all", "any0", "any2"]
+              "join_joinedload", "join_other", "join_two_used_first", "join_two_used_last",
+              "annotated", "distinct", "chained"]
+SYS_FILTERS = ["scalar", "fn", "nav1", "nav_post", "nav2", "any", "all", "any0", "any2"]
 
 
 def _sys_template(kind, root, variant):
@@ -1131,6 +1132,10 @@ def _sys_template(kind, root, variant):
         if rel is None:
             return None
         return {"k": "nav", "path": [rel], "f": "name", "op": "eq", "v": ["ann", "bob"][v]}
+    if kind == "nav_post":
+        if root != "Comment":
+            return None
+        return {"k": "nav", "path": ["post"], "f": "title", "op": "eq", "v": ["alpha", "beta"][v]}
     if kind == "nav2":
         if root != "Comment":
             return None
@@ -1157,7 +1162,7 @@ def _sys_history(style, root, shape, fkind):
     t2 = _sys_template(fkind, root, 1)
     if t is None:
         return None
-    if core and fkind in ("nav1", "nav2", "any", "all", "any0", "any2"):
+    if core and fkind in ("nav1", "nav_post", "nav2", "any", "all", "any0", "any2"):
         return None
     if dj and fkind == "all":
         return None
@@ -1188,6 +1193,17 @@ def _sys_history(style, root, shape, fkind):
     elif shape == "order":
         f = {"Post": "title", "Comment": "body", "Author": "name"}[root]
         base = add({"op": "order", "base": base, "o": {"f": f, "dir": "desc"}})
+    elif shape.startswith("join_two"):
+        # two host joins; the filter navigates the one joined first / last
+        if root != "Comment" or dj or core or fkind == "nav2":
+            return None
+        seq = ["writer", "post"] if shape.endswith("first") else ["post", "writer"]
+        for rel in seq:
+            # Comment.post is joined by target + ON clause (recognised through table
+            # name == relationship key), Comment.writer by relationship
+            form = "target_on" if rel == "post" else "rel"
+            base = add({"op": "join", "base": base,
+                        "j": {"owner": root, "rel": rel, "via": [], "form": form}})
     elif shape.startswith("join_"):
         form = {"outer": "outer_rel"}.get(shape[5:], shape[5:])
         if shape == "join_other":
